@@ -74,12 +74,6 @@ pub(super) const VALUE_START: [TokenKind; 64] = [
     T![!xor],
 ];
 
-pub(super) fn opt_value(p: &mut Parser) {
-    if p.at_set(&VALUE_START) {
-        value(p);
-    }
-}
-
 // Value ::= InnerValue ( "#" InnerValue )*
 pub(super) fn value(p: &mut Parser) -> CompletedMarker {
     p.start_node(SyntaxKind::Value);
@@ -176,9 +170,10 @@ pub(super) fn range_piece(p: &mut Parser) -> CompletedMarker {
     p.start_node(SyntaxKind::RangePiece);
     integer(p).or_error(p, "expected integer or bitrange");
     if p.at_set(&[T![...], T![-]]) {
+        // a range operator must be followed by the end of the range
         p.eat();
-    }
-    if p.at(TokenKind::IntVal) {
+        integer(p).or_error(p, "expected integer value as end of range");
+    } else if p.at(TokenKind::IntVal) {
         integer(p).or_error(p, "expected integer value as end of range");
     }
     p.finish_node();
@@ -213,9 +208,13 @@ pub(super) fn slice_element(p: &mut Parser) -> CompletedMarker {
     p.start_node(SyntaxKind::SliceElement);
     value(p);
     if p.at_set(&[T![...], T![-]]) {
+        // a range operator must be followed by the end of the range
         p.eat();
+        value(p);
+    } else if p.at(TokenKind::IntVal) {
+        // `1-3` is lexed as `1` and `-3`
+        value(p);
     }
-    opt_value(p);
     p.finish_node();
     CompletedMarker::Success
 }
